@@ -169,9 +169,9 @@ def c11_machine_jobs(tier):
         J.append(mjob('m-n4-k4', 11, N=4, K=4, OPS=RP, timeout=T, **HIST))
         J.append(mjob('m-n5-ind', 11, N=5, K=1, INDUCTIVE=1, OPS=ALLOPS, timeout=T, **HIST))
         J.append(mjob('m-n3-l2-k2-injected', 11, N=3, L=2, K=2, INJECT=1, OPS=RP, timeout=T, **HIST))
-        J.append(mjob('m-n3-k3-relocate-payload', 11, N=3, K=3, PAYLOAD=3, OPS=RP | 256, timeout=T, **HIST))
+        J.append(mjob('m-n3-l2-k2-relocate-payload', 11, N=3, L=2, K=2, PAYLOAD=3, OPS=RP | 256, timeout=T, **HIST))
     else:
-        J.append(mjob('m-n3-k4-relocate-payload', 11, N=3, K=4, PAYLOAD=3, OPS=RP | 256, timeout=T, **HIST))
+        J.append(mjob('m-n3-l2-k3-relocate-payload', 11, N=3, L=2, K=3, PAYLOAD=3, OPS=RP | 256, timeout=T, **HIST))
         for n in (1, 2, 3, 4): J.append(mjob('m-n%d-k4' % n, 11, N=n, K=4, OPS=RP, timeout=T, **HIST))
         J.append(mjob('m-n3-k3-head-payload', 11, N=3, K=3, HEAD=1, PAYLOAD=5, OPS=RP, timeout=T, **HIST))
         J.append(mjob('m-n3-k4-manual', 11, N=3, K=4, MANUAL=1, OPS=RP | 128, timeout=T, **HIST))
